@@ -35,6 +35,7 @@ type TreeOpts struct {
 	Malformed  bool // LIB declarations that are not ancestor heights
 	ForkBias   int  // 0..10: probability (x/10) to branch from a non-tip block
 	LibPolicy  int  // 0 lagging, 1 jumping, 2 mixed per branch, 3 frozen
+	RootOwnLib bool // the root declares its own height as LIB (first streamable block)
 }
 
 type Tree struct {
@@ -59,8 +60,8 @@ func (t *Tree) ancestorsHeights(b TBlock) []uint64 { // heights of ancestors (ne
 func genTree(r *Rng, o TreeOpts) *Tree {
 	t := &Tree{byID: map[string]TBlock{}}
 	t.Root = TBlock{ID: fmt.Sprintf("%da", o.RootNum), Parent: o.RootParent, Num: o.RootNum, Lib: o.RootNum}
-	if o.RootNum > 1 && r.Bool() {
-		t.Root.Lib = o.RootNum - 1
+	if o.RootNum >= 1 && !o.RootOwnLib {
+		t.Root.Lib = o.RootNum - 1 // an (unknown) ancestor below the root
 	}
 	t.byID[t.Root.ID] = t.Root
 	all := []TBlock{t.Root}
